@@ -571,12 +571,12 @@ def check_C09(tier, seed):
     t0 = time.time()
     res = Result("C09")
     known = lib.load_findings("C09")
-    parts = 8 if tier == "thorough" else 1
+    parts = 4
     depth = 2
     scns = []
 
     def gen(part):
-        consts = ["Depth = %d" % depth, "Part = %d" % part, "Parts = %d" % (parts if tier == "thorough" else (1 if depth == 1 else 6))]
+        consts = ["Depth = %d" % depth, "Part = %d" % part, "Parts = %d" % parts]
         return lib.generate("MC_Constraints", consts, ["Sound", "Export"], workers=2)
     with ThreadPoolExecutor(4) as ex:
         for _, sc, st in ex.map(gen, range(parts)):
